@@ -29,6 +29,9 @@ pub(crate) use raw::Interrupt;
 pub use raw::{RawMachine, Signals, State};
 pub use register::{Flags, Register, RegisterNumber};
 
+/// Upper bound for the clock edges a single step in [`StepMode::Assembly`] may issue.
+const MAX_CLOCK_EDGES_PER_ASSEMBLY_STEP: usize = 4096;
+
 /// A higher level abstraction over the [`RawMachine`].
 ///
 /// Using this is recommended over using the [`RawMachine`].
@@ -126,13 +129,25 @@ impl Machine {
     pub fn trigger_key_clock(&mut self) {
         match self.step_mode {
             StepMode::Assembly => {
+                // An undefined opcode parks the microprogram in a word that loops onto
+                // itself and never completes. Bound the step, so the caller always gets
+                // control back. The longest instruction (DIV) needs less than 600 edges.
+                let mut edges_left = MAX_CLOCK_EDGES_PER_ASSEMBLY_STEP;
                 // Start the next instruction
-                while self.is_instruction_done() && self.state() == State::Running {
-                    self.raw_mut().trigger_clock_edge()
+                while self.is_instruction_done()
+                    && self.state() == State::Running
+                    && edges_left > 0
+                {
+                    self.raw_mut().trigger_clock_edge();
+                    edges_left -= 1;
                 }
                 // Finish this instruction
-                while !self.is_instruction_done() && self.state() == State::Running {
-                    self.raw_mut().trigger_clock_edge()
+                while !self.is_instruction_done()
+                    && self.state() == State::Running
+                    && edges_left > 0
+                {
+                    self.raw_mut().trigger_clock_edge();
+                    edges_left -= 1;
                 }
             }
             StepMode::Real => self.raw_mut().trigger_clock_edge(),
